@@ -190,8 +190,11 @@ func Generate(r *core.Rand, p Profile, pkg string) (*Program, map[string]int) {
 	for i := 0; i < n; i++ {
 		g.genFunc(false)
 	}
-	if p.Recursion && r.Chance(0.5) {
+	if p.Recursion && r.Chance(0.6) {
 		g.genRecursive()
+		if r.Chance(0.3) {
+			g.genRecursive()
+		}
 	}
 	g.genRun()
 	return g.prog, g.Features
@@ -638,15 +641,57 @@ func (g *Gen) genTopVar() {
 }
 
 func (g *Gen) genRecursive() {
-	// let sumTo (n:int) : int = if n <= 0 then (evI tag 0) else n + sumTo (n - 1)
 	name := g.fresh("rec")
-	body := &Block{Result: &If{Cond: &BinOp{"<=", v("n"), &IntLit{0}},
-		Then: ExprBlock(call("evI", &StrLit{g.tag()}, &IntLit{g.R.Intn(5)})),
-		Else: ExprBlock(&BinOp{core.Pick(g.R, []string{"+", "*", "-"}), call("evI", &StrLit{g.tag()}, v("n")), call(name, &BinOp{"-", v("n"), &IntLit{1}})})}}
-	f := &FuncDef{Name: name, Params: []Param{{Name: "n", T: TInt}}, Ret: TInt, AnnotRet: true, Body: body, Rec: true}
+	ev := func(e Expr) Expr { return call("evI", &StrLit{g.tag()}, e) }
+	self := func(args ...Expr) Expr { return call(name, args...) }
+	dec := &BinOp{"-", v("n"), &IntLit{1}}
+	var f *FuncDef
+	switch g.R.Intn(5) {
+	case 0:
+		// let sumTo (n:int) : int = if n <= 0 then (evI tag 0) else n + sumTo (n - 1)
+		body := &Block{Result: &If{Cond: &BinOp{"<=", v("n"), &IntLit{0}},
+			Then: ExprBlock(ev(&IntLit{g.R.Intn(5)})),
+			Else: ExprBlock(&BinOp{core.Pick(g.R, []string{"+", "*", "-"}), ev(v("n")), self(dec)})}}
+		f = &FuncDef{Name: name, Params: []Param{{Name: "n", T: TInt}}, Ret: TInt, AnnotRet: true, Body: body}
+		g.feat("recursion")
+	case 1:
+		// accumulator passing (tail call): int, string or slice accumulator
+		at := core.Pick(g.R, []*Type{TInt, TString, TSlice(TInt)})
+		var step Expr
+		switch at.K {
+		case KInt:
+			step = &BinOp{"+", v("acc"), ev(v("n"))}
+		case KString:
+			step = &BinOp{"+", v("acc"), call("frt.Sprintf1", &StrLit{"%d;"}, ev(v("n")))}
+		default:
+			step = call("slice.PushLast", ev(v("n")), v("acc"))
+		}
+		body := &Block{Result: &If{Cond: &BinOp{"<=", v("n"), &IntLit{0}}, Then: ExprBlock(v("acc")), Else: ExprBlock(self(dec, step))}}
+		f = &FuncDef{Name: name, Params: []Param{{Name: "n", T: TInt}, {Name: "acc", T: at}}, Ret: at, AnnotRet: true, Body: body}
+		g.feat("recursion-accumulator")
+	case 2:
+		// structural recursion over a slice
+		body := &Block{Result: &If{Cond: call("slice.IsEmpty", v("xs")), Then: ExprBlock(ev(&IntLit{g.R.Intn(3)})),
+			Else: ExprBlock(&BinOp{core.Pick(g.R, []string{"+", "-"}), ev(call("slice.Head", v("xs"))), self(call("slice.Tail", v("xs")))})}}
+		f = &FuncDef{Name: name, Params: []Param{{Name: "xs", T: TSlice(TInt)}}, Ret: TInt, AnnotRet: true, Body: body}
+		g.feat("recursion-over-slice")
+	case 3:
+		// nothing annotated: the types come out of the recursion itself (let fib n = ...)
+		body := &Block{Result: &If{Cond: &BinOp{"<", v("n"), &IntLit{2}}, Then: ExprBlock(v("n")),
+			Else: ExprBlock(&BinOp{"+", self(dec), self(&BinOp{"-", v("n"), &IntLit{2}})})}}
+		f = &FuncDef{Name: name, Params: []Param{{Name: "n", T: TInt, NoAnnot: true}}, Ret: TInt, Body: body, Pure: true}
+		g.feat("recursion-unannotated")
+	default:
+		// recursion with the call in a let and a statement before it, building a slice of strings
+		body := &Block{Result: &If{Cond: &BinOp{"<=", v("n"), &IntLit{0}}, Then: ExprBlock(&SliceLit{Elems: []Expr{&StrLit{"end"}}}),
+			Else: &Block{Stmts: []Stmt{&ExprStmt{call("trace", &StrLit{g.tag()})}, &Let{"rest", self(dec)}},
+				Result: call("slice.PushHead", call("frt.Sprintf1", &StrLit{"n%d"}, v("n")), v("rest"))}}}
+		f = &FuncDef{Name: name, Params: []Param{{Name: "n", T: TInt}}, Ret: TSlice(TString), AnnotRet: true, Body: body}
+		g.feat("recursion-let-and-statement")
+	}
+	f.Rec = true
 	g.funcs = append(g.funcs, f)
 	g.add(f)
-	g.feat("recursion")
 }
 
 func (g *Gen) genRun() {
@@ -701,7 +746,26 @@ func (g *Gen) genRun() {
 			}
 			for _, p := range f.Params {
 				if f.Rec {
-					args = append(args, &IntLit{g.R.Intn(5)})
+					switch p.T.K {
+					case KInt:
+						args = append(args, &IntLit{g.R.Intn(5)})
+					case KString:
+						args = append(args, &StrLit{g.strLitVal()})
+					default: // slice of int
+						sl := &SliceLit{Elem: TInt}
+						nq := g.R.Intn(4)
+						if g.P.Name == "tinyfo" && nq == 0 {
+							nq = 1
+						}
+						for q := nq; q > 0; q-- {
+							sl.Elems = append(sl.Elems, &IntLit{g.R.Intn(9)})
+						}
+						if len(sl.Elems) == 0 {
+							args = append(args, &Call{Fn: v("slice.New"), TArgs: []*Type{TInt}, Args: []Expr{&UnitLit{}}})
+						} else {
+							args = append(args, sl)
+						}
+					}
 				} else {
 					args = append(args, g.expr(p.T, sc, 2, true))
 				}
